@@ -145,8 +145,17 @@ func (m *PacketModel) compareHeader(h *rtp.Header, what string) error {
 		if ids[i] != e.ID {
 			return failf("%s: extension id[%d]=%d, want %d (ids %v)", what, i, ids[i], e.ID, ids)
 		}
-		if got := h.GetExtension(e.ID); !bytes.Equal(got, e.Val) {
-			return failf("%s: extension %d value %s, want %s", what, e.ID, hx(got), hx(e.Val))
+		// GetExtension returns the first element with that id (a wire image may repeat an id)
+		first := e.Val
+		for _, f := range m.Exts {
+			if f.ID == e.ID {
+				first = f.Val
+
+				break
+			}
+		}
+		if got := h.GetExtension(e.ID); !bytes.Equal(got, first) {
+			return failf("%s: extension %d value %s, want %s", what, e.ID, hx(got), hx(first))
 		}
 	}
 
